@@ -115,6 +115,86 @@ func (r *replayer) race(racer string) (bool, string) {
 
 var raceConfirmed = map[string]string{}
 
+// stress confirms a schedule-dependent violation of a harness whose native
+// counterpart is a stress function (name contains "_stress_"): the scenario
+// the engine named (its tags) is run natively with real goroutines, many
+// rounds. A panic found by the engine is confirmed by the test process dying
+// of the same kind of panic; a blocked schedule by the stress function
+// reporting a hang; a failed assertion by the stress function reporting a
+// failed check. Data-race reports are NOT taken as confirmation here.
+func (r *replayer) stress(rf *replayFile) (bool, string) {
+	key := rf.Racer + "|" + rf.Kind + "|" + rf.Label + "|" + strings.Join(rf.Tags, ",")
+	if d, ok := raceConfirmed[key]; ok {
+		return true, d
+	}
+	var detail string
+	for attempt := 0; attempt < 3; attempt++ {
+		out, err := r.runRace(rf.Racer, []string{"VERIF_STRESS_TAGS=" + strings.Join(rf.Tags, ",")})
+		if err != "" {
+			return false, err
+		}
+		ok := false
+		switch rf.Kind {
+		case "panic":
+			if k := strings.Index(out, "\npanic: "); k >= 0 && !strings.Contains(out[k:k+40], "VERIF-STRESS-FAIL") {
+				line := firstLines(out[k+1:], 1)
+				want := ""
+				for _, what := range []string{"close of closed channel", "send on closed channel"} {
+					if strings.Contains(rf.Msg, what) {
+						want = what
+					}
+				}
+				if want == "" || strings.Contains(line, want) {
+					ok, detail = true, "native concurrent run of "+rf.Racer+" died of "+line
+				} else {
+					detail = "native run died of another panic: " + line
+				}
+			}
+		case "block":
+			if k := strings.Index(out, "VERIF-STRESS-FAIL"); k >= 0 && strings.Contains(firstLines(out[k:], 1), "hang") {
+				ok, detail = true, "native concurrent run of "+rf.Racer+" observed the failure: "+firstLines(out[k:], 1)
+			} else if strings.Contains(out, "all goroutines are asleep") || strings.Contains(out, "test timed out") {
+				ok, detail = true, "native concurrent run of "+rf.Racer+" hangs"
+			}
+		default:
+			if k := strings.Index(out, "VERIF-STRESS-FAIL"); k >= 0 {
+				ok, detail = true, "native concurrent run of "+rf.Racer+" observed the failure: "+firstLines(out[k:], 1)
+			}
+		}
+		if ok {
+			raceConfirmed[key] = detail
+			return true, detail
+		}
+		if detail == "" {
+			detail = "native concurrent run of " + rf.Racer + " did not show it: " + firstLines(tail(out, 400), 4)
+		}
+	}
+	return false, detail
+}
+
+// runRace builds (once) the race-instrumented test binary and runs one racer.
+func (r *replayer) runRace(racer string, env []string) (string, string) {
+	if r.raceBin == "" {
+		bin := filepath.Join(r.tmp, "race.test")
+		cmd := exec.Command("go", "test", "-race", "-c", "-tags", "verif", "-vet=off", "-overlay", r.ovPath, "-o", bin, "./"+r.pkgDir)
+		cmd.Dir = *repoDir
+		cmd.Env = append(os.Environ(), "GOFLAGS=-mod=mod", "GOPROXY=off", "GOSUMDB=off", "GOTOOLCHAIN=local", "CGO_ENABLED=1")
+		out, err := cmd.CombinedOutput()
+		if err != nil {
+			return "", fmt.Sprintf("go test -race -c: %v %s", err, tail(string(out), 800))
+		}
+		r.raceBin = bin
+	}
+	cmd := exec.Command(r.raceBin, "-test.run", "^TestVerifRace$", "-test.count=1", "-test.timeout", "150s")
+	cmd.Dir = filepath.Join(*repoDir, r.pkgDir)
+	cmd.Env = append(append(os.Environ(), "VERIF_RACE="+racer), env...)
+	var buf bytes.Buffer
+	cmd.Stdout = &buf
+	cmd.Stderr = &buf
+	_ = cmd.Run()
+	return buf.String(), ""
+}
+
 func (r *replayer) raceOnce(racer string) (bool, string) {
 	if r.raceBin == "" {
 		bin := filepath.Join(r.tmp, "race.test")
@@ -203,6 +283,9 @@ func (r *replayer) replay(v *interp.Violation, path string) (bool, string) {
 }
 
 func (r *replayer) replayPath(path string, rf *replayFile) (bool, string) {
+	if rf.Sched && strings.Contains(rf.Racer, "_stress_") {
+		return r.stress(rf)
+	}
 	if rf.Kind == "lock" || rf.Sched {
 		// lock-discipline and schedule-dependent violations: confirmed by the
 		// harness's concurrent native run (race detector report, or the stress
